@@ -55,7 +55,9 @@ impl TableBuilder for MysqlQueryBuilder {
                 ColumnType::Time => "time".into(),
                 ColumnType::Date => "date".into(),
                 ColumnType::Year => "year".into(),
-                ColumnType::Interval(_, _) => "unsupported".into(),
+                ColumnType::Interval(_, _) => {
+                    unimplemented!("Interval is not available in MySQL.")
+                }
                 ColumnType::Binary(length) => format!("binary({length})"),
                 ColumnType::VarBinary(length) => match length {
                     StringLen::N(length) => format!("varbinary({length})"),
